@@ -70,7 +70,7 @@ CHECKS = {
          "Weak evidence for 'all interleavings' by design; reval holds no shared mutable state. The static half is not a generated-input check (DESIGN.md §7).",
          "DESIGN.md §4 C18"),
  "C19": ("fault-isolating fuzzing by depth: child process per (construct, depth, operation, stack size) on a geometric depth ladder; oracle = exit status (normal vs killed by signal); thresholds relative to recorded known findings",
-         "Exploration: 51 recursive constructs (incl. left-deep chains of every binary operator, deep terms followed by a syntax error and deep metadata values) x 13 operations (incl. evaluation as a rule of a ruleset assembled through with_rule / with_rules, comparison of two differently named rules holding the tree, debug-printing a rule, dropping a 40-rule ruleset), climbed by a release and by a dev-profile build of the child; recorded safe depth = half of the largest depth observed to complete x 2 stack sizes, each ladder (with seeded depth jitter) climbed to 2^17 (quick) / 2^18 (thorough) or the first crash. Crashes deeper than the recorded safe depth of a listed known finding are reported as KNOWN-FINDING; any other crash is a violation.",
+         "Exploration: 51 recursive and 3 flat constructs (incl. left-deep chains of every binary operator, deep terms followed by a syntax error and deep metadata values) x 13 operations (incl. evaluation as a rule of a ruleset assembled through with_rule / with_rules, comparison of two differently named rules holding the tree, debug-printing a rule, dropping a 40-rule ruleset), climbed by a release and by a dev-profile build of the child; recorded safe depth = half of the largest depth observed to complete x 2 stack sizes, each ladder (with seeded depth jitter) climbed to 2^17 (quick) / 2^18 (thorough) or the first crash. Crashes deeper than the recorded safe depth of a listed known finding are reported as KNOWN-FINDING; any other crash is a violation.",
          "Thresholds depend on the harness's release profile and the two pinned stack sizes.",
          "DESIGN.md §4 C19"),
  "C10": ("property-based testing with unique-leaf inputs: generated nested inputs x access paths (present, absent at each level, off-by-one, wrong step kind) and near-miss symbol/function tables; oracle = direct walk of the input",
